@@ -29,7 +29,7 @@ def gen_cases(tier, seed):
     out = []
     for i in range(n):
         s = env.seed_for(seed, ID, tier, i)
-        r = random.Random(s)
+        r = random.Random(env.seed_for(s, "descriptor"))  # independent of the stream run_case derives from the same seed
         mode = r.choice(["wave", "wave", "errors", "errors", "retry", "stale"])
         ncalls = r.randint(2, 30 if tier == "quick" else 70)
         W = plainrun.pick_W(r, ncalls)
